@@ -842,7 +842,7 @@ class Dict(dict, base.Symbolic, pg_typing.CustomTyping):
     # parsed as key paths: `d.update({'a.b': 1})` sets the key 'a.b'.
     self.rebind(
         {utils.KeyPath(k): v for k, v in updates.items()},
-        raise_on_no_change=False, skip_notification=True)
+        raise_on_no_change=False)
 
   def __ior__(self, other) -> 'Dict':
     """In-place union, which goes through `update`."""
